@@ -507,6 +507,17 @@ def eval_block(block, acc):
                 acc.evaluations += 1
                 for k2, detail in out:
                     acc.violation(k2, {"kind": "set", "cfgdata": [[name, kid, t, 1]], "layers": layers, "txn": txn, "site": "header"}, detail)
+        for layers in range(256):
+            for txn in (0, 1, 2, 3, 255):
+                out = judge_keys("del", [(name, kid)], layers, txn, "header")
+                acc.evaluations += 1
+                for k2, detail in out:
+                    acc.violation(k2, {"kind": "keys", "fn": "del", "keys": [[name, kid]], "a": layers, "b": txn, "site": "header"}, detail)
+        for bad in ((256, 0), (-1, 0), (0, 256), (0, -1)):
+            st, out = judge_refusal("out_of_range_header_accepted", lambda: UBXMessage.config_del(bad[0], bad[1], [name]), "del")
+            acc.evaluations += 1
+            for k2, detail in out:
+                acc.violation(k2, {"kind": "static"}, detail)
         for layer in range(256):
             for position in (0, 1, 255, 256, 65535):
                 out = judge_keys("poll", [(name, kid)], layer, position, "header")
